@@ -123,8 +123,19 @@ def main() -> int:
             st = t["steps"][b["k"] - 1]
             clause = "+".join(sorted(b["failing"]))
             raised = sorted({"%s:%s" % (p.get("raised"), p["type"]) for sl in st["t"]["slides"] for p in sl["phs"] if p.get("raised")})
-            rep.reject("%s@%s[%s]%s" % (clause, st["a"]["op"], "corpus" if v["id"].startswith("corpus:") else "generated",
-                                        ("|reader-raised:" + ",".join(raised)) if raised else ""),
+            # history class: the layout placeholder(s) a failing inheritance falls back to are carried by a p:pic without an a:xfrm
+            # of its own (python-pptx wraps those in a Picture proxy, which has no master fallback)
+            cls = ""
+            lay_phs = t["lay"][st["a"]["l"] - 1] if st["a"].get("l") else []
+            if clause == "PhInherit" and st["t"]["slides"]:
+                culprits = [q for q in st["t"]["slides"][-1]["phs"] if not q["own"] and not q["rd"]
+                            and any(lp["idx"] == q["idx"] and lp.get("car") != "sp" and not lp["own"] for lp in lay_phs)]
+                others = [q for q in st["t"]["slides"][-1]["phs"] if not q["own"] and not q["rd"] and q not in culprits
+                          and any(lp["idx"] == q["idx"] and lp["own"] for lp in lay_phs)]
+                if culprits and not others:
+                    cls = "|layout-placeholder-is-a-picture-without-own-geometry"
+            rep.reject("%s@%s[%s]%s%s" % (clause, st["a"]["op"], "corpus" if v["id"].startswith("corpus:") else "generated",
+                                          ("|reader-raised:" + ",".join(raised)) if raised else "", cls),
                        {"module": "Layout", "id": v["id"], "deck": cdeck.get(v["id"]), "scenario": gsc.get(v["id"]), "failing": b,
                         "action": st["a"], "err": st.get("err"), "layout_phs": t["lay"][st["a"]["l"] - 1] if st["a"].get("l") else None,
                         "slide_phs": st["t"]["slides"][-1]["phs"] if st["t"]["slides"] else None},
